@@ -17,7 +17,7 @@ func init() {
 		Rule: "rapid-drawn sets of 1-7 pairwise non-equivalent path templates (depth <=4 over {a, b, {v}, empty last segment}; variable names differ between templates) x method subsets of {GET,POST,DELETE} x base-path forms (none, absolute URL, relative, trailing slash, '/', URL with {var} defaults, --basepath, flag over servers); per spec ALL 1364 request paths of depth <=5 over {a,b,x,empty} x {under the base path, without it, near-miss prefixes} x {GET,POST,DELETE,PATCH} are served (thorough: also every template set of size <=2 over depth <=3); " +
 			"oracle: reference matcher returning the admissible outcome set (dispatch to the most literal matching template that declares the method; not-found; both where a variable binds an empty segment or a more literal template lacks the method), exactly one handler or the (custom/default) not-found handler, SchemaPath seen by a middleware = the dispatched template; " +
 			"non-trivial = request that matches a template or misses one by a segment/slash/method/prefix; distinct by (spec, prefix form, path, method)",
-		Assume:    []string{"request paths are r.URL.Path as net/http delivers them (decoded)", "dispatching an empty segment to a variable and the method-fallback case admit two outcomes (DESIGN.md §11)"},
+		Assume:    []string{"request paths are r.URL.Path as net/http delivers them (decoded)", "dispatching an empty segment to a variable admits two outcomes (DESIGN.md §11); a more literal template without the method does not stop the dispatch to a less literal one that has it"},
 		Main:      c03Main,
 		MinNonTrv: 1000,
 	})
@@ -29,7 +29,8 @@ func routerSpecs(e *Env, family string, n int, typed bool) []PkgSpec {
 	return collect(e, family, n, func(t *rapid.T) PkgSpec {
 		c := specgen.NewCtx(t, disabled)
 		bf := rapid.SampledFrom(forms).Draw(t, "baseform")
-		d := c.RouterDoc(specgen.RouterOpts{Typed: typed})
+		// (every method a path item can declare is an operation like any other)
+		d := c.RouterDoc(specgen.RouterOpts{Typed: typed, Methods: []string{"GET", "POST", "DELETE", "PUT", "PATCH", "HEAD", "OPTIONS", "TRACE"}})
 		d.Servers = bf.Servers
 		return PkgSpec{Doc: d, Cfg: inproc.Config{BasePath: bf.Flag, DoNotEdit: true}, Meta: map[string]any{"baseform": bf.Name}}
 	})
